@@ -673,6 +673,11 @@ class LMDBStorage(BaseStorage):
             raise AuthenticationError("restricted: permission denied")
 
         if not event.is_ephemeral:
+            # the write happens later, in the writer thread: refuse now what it could not store
+            check_storable(event)
+            with self.db.begin(buffers=True) as txn:
+                if get_event_data(txn, event.id_bytes):
+                    return event, False
             self.writer_queue.put(("add", [event]))
         await self.post_save(event)
         return event, True
@@ -1193,6 +1198,23 @@ def encode_event(event: Event) -> bytes:
         bytes.fromhex(event.sig),
     )
     return packb(row, use_bin_type=True)
+
+
+def check_storable(event: Event):
+    """
+    Raise StorageError if the writer thread would fail on this event
+    (non-integer or out-of-range numbers, index key longer than LMDB allows, ...)
+    """
+    try:
+        suffix = 2 + len(event.created_at.to_bytes(4, "big")) + len(event.id_bytes)
+        encode_event(event)
+        for index in INDEXES.values():
+            if index.enabled and hasattr(index, "convert"):
+                for key in index.convert(event):
+                    if len(key) + suffix > 511:
+                        raise ValueError("index key too long")
+    except Exception as e:
+        raise StorageError(f"invalid: event cannot be stored: {e}")
 
 
 def decode_event(data: tuple) -> Event:
